@@ -74,18 +74,9 @@ Definition range_index (start step : Z) (n : nat) (x : label) : option Z :=
   | _ => None
   end.
 
-(* `np.asarray(span, dtype=object) == period`: element-wise, but a tuple period is itself turned
-   into an array and broadcast against the span (None = shapes do not broadcast: NumPy raises) *)
-Definition arr_eq (ls : list label) (x : label) : option (list bool) :=
-  match x with
-  | LPair a b =>
-      match ls with
-      | [y] => Some [label_eqb y (LInt a); label_eqb y (LInt b)]
-      | [y1; y2] => Some [label_eqb y1 (LInt a); label_eqb y2 (LInt b)]
-      | _ => None
-      end
-  | _ => Some (map (fun y => label_eqb y x) ls)
-  end.
+(* `np.asarray(span, dtype=object) == target`, target = the period wrapped in a 0-d object array (since fix 35fe7e2): element-wise
+   comparison with the period as ONE object — a tuple label is no longer broadcast against the span *)
+Definition arr_eq (ls : list label) (x : label) : list bool := map (fun y => label_eqb y x) ls.
 Fixpoint true_positions (i : Z) (bs : list bool) : list Z :=
   match bs with
   | [] => []
@@ -93,14 +84,10 @@ Fixpoint true_positions (i : Z) (bs : list bool) : list Z :=
   end.
 (* _locate_period_in_span_fallback; since fix a094259 the single match is returned as a built-in int *)
 Definition fallback (x : label) (ls : list label) : outcome loc :=
-  match arr_eq ls x with
-  | None => Raise ValueError
-  | Some bs =>
-      match true_positions 0 bs with
-      | [] => Raise KeyError
-      | [i] => Ret (LPos i true)
-      | _ => Raise NotImplementedError
-      end
+  match true_positions 0 (arr_eq ls x) with
+  | [] => Raise KeyError
+  | [i] => Ret (LPos i true)
+  | _ => Raise NotImplementedError
   end.
 
 Definition fallback_tag : string := "<callable:_locate_period_in_span_fallback>".
@@ -142,7 +129,7 @@ Section Locate.
   Definition span_contains (sp : span) (x : label) : outcome bool :=
     match sp with
     | SPandas ls => Ret (pd_contains ls x)
-    | SArr ls => match arr_eq ls x with Some bs => Ret (existsb (fun b => b) bs) | None => Raise ValueError end
+    | SArr ls => Ret (existsb (fun b => b) (arr_eq ls x))
     | _ => Ret (existsb (fun y => label_eqb y x) (span_labels sp))
     end.
 
